@@ -10,7 +10,7 @@ use p3_field::{BasedVectorSpace, ExtensionField, Field, PrimeField64, TwoAdicFie
 use p3_fri::FriProof;
 use p3_matrix::Dimensions;
 use p3_symmetric::{CryptographicHasher, PseudoCompressionFunction};
-use p3_util::log2_strict_usize;
+use p3_util::{log2_ceil_usize, log2_strict_usize};
 
 use crate::Target;
 
@@ -285,6 +285,35 @@ where
         .collect()
 }
 
+/// Geometry gate of the native MMCS (`validate_commit_reachable_heights` in p3-merkle-tree):
+/// the batch must contain a non-empty matrix and every height must equal
+/// `ceil(max_height / 2^k)` for the `k` fixed by its power-of-two bucket. Without it the circuit
+/// accepts openings for dimension claims the native verifier rejects with `EmptyBatch` /
+/// `IncompatibleHeights` (e.g. height 3 claimed for a matrix committed with height 4).
+fn validate_heights_on_ladder(dimensions: &[Dimensions]) -> Result<(), CircuitBuilderError> {
+    let max_height = dimensions.iter().map(|d| d.height).max().unwrap_or(0);
+    if max_height == 0 {
+        return Err(CircuitBuilderError::Poseidon2ConfigMismatch {
+            expected: "at least one non-empty matrix".into(),
+            got: "empty batch".into(),
+        });
+    }
+    let log_max_height = log2_ceil_usize(max_height);
+    for dims in dimensions {
+        let bits_reduced = log_max_height - log2_ceil_usize(dims.height);
+        let expected_height = ((max_height - 1) >> bits_reduced) + 1;
+        if dims.height != expected_height {
+            return Err(CircuitBuilderError::Poseidon2ConfigMismatch {
+                expected: format!(
+                    "matrix height {expected_height} (= ceil({max_height} / 2^{bits_reduced}))"
+                ),
+                got: format!("matrix height {}", dims.height),
+            });
+        }
+    }
+    Ok(())
+}
+
 /// Recursive version of `MerkleTreeMmcs::verify_batch`. Adds a circuit that verifies an opened
 /// batch of rows with respect to a given commitment (Merkle cap).
 ///
@@ -345,6 +374,8 @@ where
             got: salts.len(),
         });
     }
+
+    validate_heights_on_ladder(dimensions)?;
 
     assert!(
         !commitment_cap.is_empty(),
@@ -460,6 +491,8 @@ where
             got: salts.len(),
         });
     }
+
+    validate_heights_on_ladder(dimensions)?;
 
     assert!(
         !commitment_cap.is_empty(),
@@ -1117,6 +1150,7 @@ fn arity4_prepare<EF: Field>(
             got: "incompatible matrix heights".into(),
         });
     }
+    validate_heights_on_ladder(dimensions)?;
 
     let max_height = heights_tallest_first
         .peek()
